@@ -262,7 +262,7 @@ def _cmod_python(I, a, m):
     x, y = z3.Int('lemma!a'), z3.Int('lemma!m')
     I.n_oblig += 1
     I.obligs.append(Obligation(f'{I.qual}#lemma:cmod_python', [], stmt(x, y), 'lemma',
-                               {'clause': 'forall a, m >= 1: (c_mod(a, m) + m if c_mod(a, m) < 0 else c_mod(a, m)) == a % m'}))
+                               {'clause': 'forall a, m >= 1: (c_mod(a, m) + m if c_mod(a, m) < 0 else c_mod(a, m)) == a % m', 'prefer': 'cvc5'}))
     return stmt(to_z3(a), to_z3(m))
 
 
